@@ -575,7 +575,7 @@ func (w *Worktree) resetIndex(t *object.Tree, dirs, files []string) ([]string, e
 		idx.SkipUnless(dirs)
 	}
 
-	return removedFiles, w.r.Storer.SetIndex(idx)
+	return removedFiles, w.setIndex(idx)
 }
 
 // inFiles checks if the given file is in the list of files. The incoming filepaths in files should be cleaned before calling this function.
@@ -826,7 +826,7 @@ func (w *Worktree) resetWorktreeToTree(cfg *config.Config, fromTree, toTree *obj
 	}
 
 	b.Write(idx)
-	return w.r.Storer.SetIndex(idx)
+	return w.setIndex(idx)
 }
 
 // resetWorktree updates the worktree to match the staging area.
@@ -879,7 +879,7 @@ func (w *Worktree) resetWorktree(cfg *config.Config, t *object.Tree, files []str
 	}
 
 	b.Write(idx)
-	return w.r.Storer.SetIndex(idx)
+	return w.setIndex(idx)
 }
 
 func (w *Worktree) checkoutChange(cfg *config.Config, fs *worktreeFilesystem, ch merkletrie.Change, t *object.Tree, idx *indexBuilder) error {
